@@ -196,7 +196,7 @@ func TestC14(t *testing.T) {
 		"a pool of 3-6 programs per case (generated single-file programs, multi-file programs with single/grouped imports of local files and of std, a rejected program, a program using every helper routine) and a random history of 6-30 Transpile calls over programs x {bash, batch} on ONE transpiler object (fresh converter per call); then the same programs in freshly started processes (new map iteration seeds) and from a relocated copy of the tree with another cwd. Oracle: every observation of the same (content, target) is byte-identical (error texts modulo the directory). Non-trivial = histories in which a (program, target) recurs after at least two other transpilations including one of the other target and a failing one; distinct by history + sources.",
 		[]string{"self-comparison is the property here: history, process and location must be irrelevant", "process instances are sampled (quick: 2 per case, thorough: 6), not enumerated"})
 	defer r.Flush()
-	gcfg := gen.Cfg{MaxStmts: 14, MaxDepth: 3, ExprDepth: 3, Funcs: true, MaxFuncs: 3, Slices: true, StrOps: true, LoopBudget: 8, IO: true, Panics: true, ErrSpell: true}
+	gcfg := gen.Cfg{MaxStmts: 14, MaxDepth: 3, ExprDepth: 3, Funcs: true, MaxFuncs: 3, Slices: true, StrOps: true, LoopBudget: 8, IO: true, Panics: true, ErrSpell: true, BareExpr: true}
 	procs := e.Pick(2, 6)
 	checkRapid(t, r, func(t *rapid.T) {
 		np := gen.Uniform(3, 6).Draw(t, "nprogs")
